@@ -177,3 +177,17 @@ mod tests {
         );
     }
 }
+
+/// Verification hooks: add-only wrappers around the private helpers.
+#[cfg(feature = "verif-hooks")]
+pub mod verif {
+    pub fn find_content_string(input: &str) -> Option<&str> {
+        super::find_content_string(input)
+    }
+    pub fn parse_javadoc(s: &str) -> String {
+        super::parse_javadoc(s)
+    }
+    pub fn get_javadoc(input: &str, pos: usize) -> Option<String> {
+        super::get_javadoc(input, pos)
+    }
+}
